@@ -28,6 +28,7 @@ MC_CFG = """CONSTANT Tier = "%s"
 CONSTANT Coerce = FALSE
 CONSTANT Deviations = {}
 CONSTANT SchemaGaps = {"flattened", "mapkeys", "discriminated"}
+CONSTANT VocabularyGaps = {}
 SPECIFICATION Spec
 INVARIANT ResultShape
 INVARIANT LocsInData
